@@ -27,21 +27,34 @@ def build(rng, truncatable=False):
     e = rng.choice("<>")
     nseg = rng.randint(1, 3)
     segs, datas = [], []
+    active = list(chans)          # channels that have data in the current segment
     for si in range(nseg):
         nchunks = rng.randint(1, 3)
-        cs = D.chunk_size(widths, rows)
-        data = bytes(rng.randrange(256) for _ in range(cs * nchunks))
         toc = G.TOC_META | G.TOC_RAW | G.TOC_DAQMX | G.TOC_NEWLIST
         r = rng.random()
-        if si == 0 or r < 0.4:
+        if si == 0 or r < 0.35:
             entries = D.daqmx_entries(widths, chans, rng if si == 0 else None)
-        elif r < 0.7:
+            active = list(chans)
+        elif r < 0.6:
             entries = None
             toc = G.TOC_RAW | G.TOC_DAQMX
-        else:
+        elif r < 0.8 or truncatable or len(active) < 2:
             entries = [G.Entry(c.path, "prev") for c in chans]
             toc = G.TOC_META | G.TOC_RAW | G.TOC_DAQMX
-        segs.append(G.Seg(e=e if rng.random() < 0.8 else rng.choice("<>"), toc=toc, entries=entries, data=data))
+            active = list(chans)
+        else:
+            # one channel stops being written ("no data" index, the object list carries over): its buffers
+            # keep only the rows the remaining channels need
+            off = rng.choice(active)
+            entries = [G.Entry(off.path, None)]
+            toc = G.TOC_META | G.TOC_RAW | G.TOC_DAQMX
+            active = [c for c in active if c is not off]
+        seg_rows = [r_ if any(s[1] == b for c in active for s in c.scalers) else 0 for b, r_ in enumerate(rows)]
+        cs = D.chunk_size(widths, seg_rows)
+        data = bytes(rng.randrange(256) for _ in range(cs * nchunks))
+        sg = G.Seg(e=e if rng.random() < 0.8 else rng.choice("<>"), toc=toc, entries=entries, data=data)
+        sg.dq_rows, sg.dq_chans = seg_rows, list(active)
+        segs.append(sg)
         datas.append((nchunks, data))
     return widths, rows, chans, segs
 
@@ -54,12 +67,13 @@ def expected(widths, rows, chans, segs, avail_last=None):
             for x in s.entries:
                 for p in x.props:
                     props.setdefault(x.path, {})[p.name] = p
-        cs = D.chunk_size(widths, rows)
+        srows, schans = getattr(s, "dq_rows", rows), getattr(s, "dq_chans", chans)
+        cs = D.chunk_size(widths, srows)
         if avail_last is not None and si == len(segs) - 1:
             avail = avail_last
         else:
-            avail = D.full_avail(rows, len(s.data) // cs if cs else 0)
-        dv = D.direct_values(s.e, widths, rows, chans, s.data, avail)
+            avail = D.full_avail(srows, len(s.data) // cs if cs else 0)
+        dv = D.direct_values(s.e, widths, srows, schans, s.data, avail)
         for p in dv:
             for sid in dv[p]:
                 vals[p][sid] += dv[p][sid]
@@ -141,6 +155,8 @@ def check_one(run, rng, truncate, cases, meta):
     run.count(label)
     run.count("kind_digital" if chans[0].kind == D.DIGITAL_LINE else "kind_format_changing")
     run.count("buffers_%d" % len(widths))
+    if any(len(getattr(s, "dq_chans", chans)) < len(chans) for s in segs):
+        run.count("files_with_a_channel_switched_off")
     desc = {"widths": widths, "rows": rows, "segments": R.describe_segs(segs),
             "channels": [{"path": c.path.decode(), "dt": c.dt, "scalers": c.scalers} for c in chans]}
     case = {"op": "read", "hex": data.hex(), "desc": desc}
